@@ -863,16 +863,19 @@ class _Boundary:
 
 
 # ====================================================================== networks
-def _net_config(spec):
+def _net_config(spec, batch_norm=False):
+    """batch_norm: image encoders with batch norm (`layer_norm=True` of EvolvableCNN, the default of the library's own
+    CNN configuration): in train mode its batch statistics couple the rows of a call."""
     head = {"hidden_size": [8], "init_layers": False}
     if spec["t"] in ("dict", "tuple"):
         return {
-            "encoder_config": {"cnn_config": {"channel_size": [4], "kernel_size": [2], "stride_size": [1]}},
+            "encoder_config": {"cnn_config": {"channel_size": [4], "kernel_size": [2], "stride_size": [1], "layer_norm": bool(batch_norm)}},
             "head_config": {"hidden_size": [8]},
         }
     if spec["t"] == "box" and len(spec["shape"]) == 3:
         return {
-            "encoder_config": {"channel_size": [4], "kernel_size": [2], "stride_size": [1], "init_layers": False},
+            "encoder_config": {"channel_size": [4], "kernel_size": [2], "stride_size": [1], "init_layers": False,
+                               "layer_norm": bool(batch_norm)},
             "head_config": dict(head),
         }
     return {"encoder_config": {"hidden_size": [8], "init_layers": False}, "head_config": dict(head)}
@@ -921,10 +924,10 @@ def _compositions(rng, B):
 
 
 # ====================================================================== family: algo (single agent)
-def _make_single(algo, space, norm, spec):
+def _make_single(algo, space, norm, spec, batch_norm=False):
     from gymnasium import spaces
 
-    cfg = _net_config(spec)
+    cfg = _net_config(spec, batch_norm=batch_norm)
     if algo == "DQN":
         from agilerl.algorithms.dqn import DQN
 
@@ -944,7 +947,7 @@ def _make_single(algo, space, norm, spec):
     raise ValueError(algo)
 
 
-def _single_outputs(agent, algo, obs, n):
+def _single_outputs(agent, algo, obs, n, batch_norm=False):
     import torch
 
     if algo == "DQN":
@@ -967,6 +970,10 @@ def _single_outputs(agent, algo, obs, n):
         return {"greedy_action": np.asarray(agent.get_action(obs, training=False))}
     _, _, ent, val = agent.get_action(obs)
     out = {"value": np.asarray(val), "entropy": np.asarray(ent)}
+    if batch_norm:
+        # evaluate_actions is the learn() path: it runs the networks in train mode, where batch norm uses (and moves) the
+        # batch statistics on purpose; the consequence clause is about what the agent REPORTS when it acts
+        return out
     with torch.no_grad():
         _, _, v2 = agent.evaluate_actions(obs, torch.zeros(n, dtype=torch.long))
     out["value_evaluate_actions"] = v2.detach().cpu().numpy()
@@ -982,7 +989,7 @@ def _run_algo(case, rec: Recorder):
     rng = np.random.default_rng(case["seed"])
     leaf = _first_leaf_kind(space)
     try:
-        agent = _make_single(algo, space, norm, spec)
+        agent = _make_single(algo, space, norm, spec, batch_norm=bool(case["seed"] % 2))
     except Exception as e:
         _is_timeout(e)
         rec.hit(f"info_constructor_failed:{algo}:{leaf}")
@@ -996,7 +1003,7 @@ def _run_algo(case, rec: Recorder):
     with _Boundary(rec):
         for s in singles:
             try:
-                out = _single_outputs(agent, algo, present(space, [s], "single", "numpy"), 1)
+                out = _single_outputs(agent, algo, present(space, [s], "single", "numpy"), 1, batch_norm=bool(case["seed"] % 2))
                 ref.append({k: _rows(v, 1) for k, v in out.items()})
             except Exception as e:
                 _crash(rec, e, "consequence_single", site, mode="single", rows=1, **base_ctx)
@@ -1010,7 +1017,8 @@ def _run_algo(case, rec: Recorder):
             mode = "b1" if len(idx) == 1 else "batch"
             ctx = dict(base_ctx, mode=mode, container=container, rows=len(idx), composition=idx)
             try:
-                out = _single_outputs(agent, algo, present(space, [singles[i] for i in idx], mode, container), len(idx))
+                out = _single_outputs(agent, algo, present(space, [singles[i] for i in idx], mode, container), len(idx),
+                                      batch_norm=bool(case["seed"] % 2))
             except Exception as e:
                 _crash(rec, e, "consequence_single", site, **ctx)
                 continue
@@ -1075,8 +1083,8 @@ def _run_ippo(case, rec: Recorder):
     rng = np.random.default_rng(case["seed"])
     leaf = _first_leaf_kind(space)
     try:
-        agent = IPPO([space] * 3, [spaces.Discrete(3)] * 3, agent_ids=list(AGENTS), net_config=_net_config(spec),
-                     normalize_images=norm)
+        agent = IPPO([space] * 3, [spaces.Discrete(3)] * 3, agent_ids=list(AGENTS),
+                     net_config=_net_config(spec, batch_norm=bool(case["seed"] % 2)), normalize_images=norm)
     except Exception as e:
         _is_timeout(e)
         rec.hit(f"info_constructor_failed:IPPO:{leaf}")
@@ -1102,6 +1110,11 @@ def _run_ippo(case, rec: Recorder):
                 with torch.no_grad():
                     ref[a]["value"].append(float(critic(prep).reshape(-1)[0]))
                     ref[a]["entropy"].append(float(actor(prep)[2].reshape(-1)[0]))
+        # hand the networks back in the mode they are in after construction and after every learn(): whether batch
+        # statistics (batch norm of image encoders) can couple the rows of a call is get_action's business
+        for k in range(len(agent.actors)):
+            agent.actors[k].train()
+            agent.critics[k].train()
     except Exception as e:
         _crash(rec, e, "consequence_shared_policy", "reference: network on one prepared observation", mode="single", **base_ctx)
         return
@@ -1260,8 +1273,8 @@ def _run_mac(case, rec: Recorder):
     else:
         from agilerl.algorithms.matd3 import MATD3 as cls
     try:
-        agent = cls([space] * 3, [spaces.Box(-1, 1, shape=(2,))] * 3, agent_ids=list(AGENTS), net_config=_net_config(spec),
-                    normalize_images=norm)
+        agent = cls([space] * 3, [spaces.Box(-1, 1, shape=(2,))] * 3, agent_ids=list(AGENTS),
+                    net_config=_net_config(spec, batch_norm=bool(case["seed"] % 2)), normalize_images=norm)
     except Exception as e:
         _is_timeout(e)
         rec.hit(f"info_constructor_failed:{algo}:{leaf}")
